@@ -105,6 +105,12 @@ def cases(tier, seed, prop):
                             seq = [[{'k': 'group', 'body': [[inner, '+'], [dict(inner, name='y'), None]], 'rep': N}, None]]
                         else: seq = [[e, None]]
                         out.append({'seq': seq, 'c': {}, 'g': 'forms'})
+        # large counts without any configured limit: "exactly N copies" has no small built-in ceiling
+        for (n1, n2) in ((1200, None), (40, 30), (1, 2500)) + (() if tier == 'quick' else ((20000, None), (300, 120))):
+            e = {'k': 'elem', 'name': 'x', 'mentions': [('attr', 'title', 'v$', 'raw')], 'text': None, 'rep': n1, 'slash': False}
+            if n2 is None: seq = [[e, None]]
+            else: seq = [[{'k': 'group', 'body': [[e, None]], 'rep': n2}, None]]
+            out.append({'seq': seq, 'c': {'options': {'output.format': False}}, 'g': 'large'})
         n = 3000 if tier == 'quick' else 40000
         for _ in range(n):
             out.append({'seq': mk.gen_seq(rnd, opt, [rnd.randint(1, 8)], 3), 'c': rnd.choice(C02_CFGS), 'g': 'random'})
@@ -139,6 +145,13 @@ def cases(tier, seed, prop):
         for _ in range(n // 6):
             w, want = gen_wnum(rnd, rnd.randint(1, 8), 0)
             out.append({'w': w, 'want': want, 'tpl': rnd.choice([0, 3]), 'c': rnd.choice([{}, {'options': {'output.format': False}}, {'syntax': 'jsx'}, {'syntax': 'vue'}]), 'g': 'text-num'})
+        # a long list of lines: one copy per non-blank line has no small built-in ceiling
+        for cnt in (1500, 100001 if tier == 'quick' else 250001):
+            out.append({'wrap': 0, 'c': {'text': ['l%d' % i if i % 7 else '  ' for i in range(cnt)], 'options': {'output.format': False}}, 'g': 'wrap-large'})
+        # text with tabstops in front of children: the children stand at the first tabstop, every other character of the text stays
+        for _ in range(n // 6):
+            w, want = gen_wnum(rnd, rnd.randint(2, 9), 0)
+            out.append({'w': w, 'want': want, 'kids': 1, 'tpl': 1, 'c': {'options': {'output.format': False}}, 'g': 'text-kids'})
         for c in out:
             c['s'] = TEXT_TPL[c['tpl']] % c['w'] if 'w' in c else WRAP_TPL[c['wrap']][0]
         return out
@@ -465,8 +478,39 @@ def first_text_after(outp, tag):
     return rest if j < 0 else rest[:j]
 
 
+def parse_wnum(w):
+    """(content, [(offset in content, placeholder length) of every tabstop in order]) of a payload written by gen_wnum"""
+    want = ''; spans = []; i = 0
+    while i < len(w):
+        if w[i] == '\\': want += w[i + 1]; i += 2
+        elif w.startswith('${', i):
+            j = w.index('}', i); body = w[i + 2:j]; ph = body.split(':', 1)[1] if ':' in body else ''
+            spans.append((len(want), len(ph))); want += ph; i = j + 1
+        elif w[i] == '$':
+            r = 0
+            while i + r < len(w) and w[i + r] == '$': r += 1
+            want += '1'.zfill(r); i += r
+        else: want += w[i]; i += 1
+    return want, spans
+
+
+def oracle_C04_kids(case, o):
+    want, spans = parse_wnum(case['w'])
+    if want != case['want']: return []
+    m = re.match(r'^<x title="v">(.*)</x>$', mk.strip_fields(o[1]), re.S)
+    if not m: return ['text-kids| expand(%r): no <x title="v">..</x> in %r' % (case['s'], o[1])]
+    got = m.group(1); kid = '<em></em>'
+    ok = [want + kid]
+    if spans:
+        a, l = spans[0]
+        ok += [want[:a] + kid + want[a + l:], want[:a] + kid + want[a:], want[:a + l] + kid + want[a + l:]]
+    if got not in ok: return ['text-kids| expand(%r): <x> contains %r; the written text is %r and the child stands after it or at its first tabstop: %r' % (case['s'], got, want, ok[:2])]
+    return []
+
+
 def oracle_C04_text(case, o):
     if o[0] != 'ok': return ['no-output| expand(%r) -> %s %s' % (case['s'], o[0], o[1])]
+    if case.get('kids'): return oracle_C04_kids(case, o)
     want = case['want'] if 'want' in case else decode(case['w'])
     tag = ['x', 'x', 'li', 'b', 'x', 'x', 'br', 'x'][case['tpl']]
     got = first_text_after(o[1], tag)
@@ -503,6 +547,9 @@ def oracle_C04_wrap(case, o):
     norm = lambda t: re.sub(r'\$\{\d+\}', '', t)      # tabstops of empty leaves / attributes (and the same shape inside supplied text, on both sides)
     got = norm(outp); want = norm(want)
     if sq(got) != sq(want): return ['wrap| expand(%r, text=%r) = %r, expected (modulo white space) %r' % (case['s'], text, outp, want)]
+    # "each containing that trimmed line": without formatting nothing but the trimmed line may stand inside the element, white space included
+    if implicit and case['c'].get('options', {}).get('output.format') is False and got != want:
+        return ['wrap-trim| expand(%r, text=%r) = %r, expected exactly %r' % (case['s'], text, outp, want)]
     return []
 
 
